@@ -48,6 +48,22 @@ def check(run):
     run.rule = RULE
     samples = standard_flow(run, units, deps["phf"], vmon, profiles=("fast",), tag="c16",
                             extra_args=["flipk=%d" % (11 if thorough else 8)])
+    # the same twins when strum is only reachable under another name (#[strum(crate = "renamed")]): the phf twin must
+    # still compile and agree
+    runits = []
+    for i in range(150 if thorough else 40):
+        s = strgen.build(r, "N%d" % i, ["EnumString"], fieldless=True, naming_bias=0.75, max_n=6, capture_types=["String"])
+        s.strum_path = "renamed"
+        s.crate_path = "renamed"
+        p = copy.deepcopy(s)
+        p.use_phf = True
+        up = shards.Unit("u_" + s.name.lower() + "_plain", c01.glue(s), meta={"enum_src": s.render()}, sig="renamed,plain," + s.signature(), head=strgen.CAPTURE_HEAD)
+        uq = shards.Unit("u_" + s.name.lower() + "_phf", c01.glue(p), meta={"enum_src": p.render()}, sig="renamed,phf," + s.signature(), head=strgen.CAPTURE_HEAD)
+        runits += [up, uq]
+        spec_by_unit[up.name] = s
+        spec_by_unit[uq.name] = p
+    samples.update(standard_flow(run, runits, deps["phf"], vmon, profiles=("fast",), tag="c16r", extern_name="renamed"))
+    units = units + runits
     c01.offline_recheck(run, samples, spec_by_unit)
     pick_samples(run, samples, {u.name: u for u in units})
     run.extra["programs"] = len(units)
